@@ -2657,6 +2657,7 @@ func (s *Server) serveConnCounted(c net.Conn, countConcurrency bool) error {
 		// ctx belongs to the timed out handler.
 		_, streamedBody := ctx.Request.bodyStream.(*requestStream)
 		isHTTP11 := ctx.Request.Header.IsHTTP11()
+		ctx.Request.bodyStreamUnread = false
 
 		// If a client denies a request the handler should not be called
 		if continueReadingRequest {
@@ -2697,9 +2698,10 @@ func (s *Server) serveConnCounted(c net.Conn, countConcurrency bool) error {
 			previousWriteTimeout = 0
 		}
 
-		if rs, ok := ctx.Request.bodyStream.(*requestStream); ok && !rs.fullyRead() {
-			// The handler left a part of the streamed request body unread,
-			// so the next request cannot be found on this connection.
+		if rs, ok := ctx.Request.bodyStream.(*requestStream); (ok && !rs.fullyRead()) || ctx.Request.bodyStreamUnread {
+			// The handler left a part of the streamed request body unread
+			// (or dropped the stream before reading all of it), so the next
+			// request cannot be found on this connection.
 			connectionClose = true
 		}
 
